@@ -549,9 +549,11 @@ theorem aim_of_search (c : SwapCtx) (ps : List (Nat × PositionD)) (p0 : Nat) (s
     · omega
 
 /-- the two nested loops keep the invariant `Path`, and with it any predicate `Q` on the loop state
-    that every iteration of the described `Shape` preserves -/
-theorem loop_path_inv (c : SwapCtx) (ps : List (Nat × PositionD)) (p0 : Nat) (ok : CtxOK c) (Q : SwapSt → Prop)
-    (hQ : ∀ s s' nai nti, Path c ps p0 s → Aim c s nai nti → Shape c s s' nti → Path c ps p0 s' → Q s → Q s') :
+    that every iteration preserves; the iteration is handed over as its `Shape` AND as the raw step
+    equation (so that amount-level facts — C02, C06 — are available to `Q`) -/
+theorem loop_path_step (c : SwapCtx) (ps : List (Nat × PositionD)) (p0 : Nat) (ok : CtxOK c) (Q : SwapSt → Prop)
+    (hQ : ∀ s s' nai nti, Path c ps p0 s → Aim c s nai nti → Shape c s s' nti → Path c ps p0 s' →
+      swapStep c s nai nti (sp nti) (if c.aToB then max c.limit (sp nti) else min c.limit (sp nti)) = .ok s' → Q s → Q s') :
     ∀ (fuel : Nat) (s : SwapSt) (inner : Option (Nat × Int × Nat × Nat)) (s' : SwapSt),
       Path c ps p0 s → Q s →
       (∀ nai nti ntp tgt, inner = some (nai, nti, ntp, tgt) →
@@ -594,7 +596,7 @@ theorem loop_path_inv (c : SwapCtx) (ps : List (Nat × PositionD)) (p0 : Nat) (o
             exact step_down c ps p0 s s1 nai nti ok hd P A hst
           · rw [if_neg hd] at htgt; rw [htgt] at hst ⊢
             exact step_up c ps p0 s s1 nai nti ok hd P A hst
-        have q1 : Q s1 := hQ s s1 nai nti P A hstep.2.2 hstep.1 q
+        have q1 : Q s1 := hQ s s1 nai nti P A hstep.2.2 hstep.1 (by rw [← htgt, ← hntp]; exact hst) q
         by_cases hc : (decide (s1.remaining = 0) || decide (s1.price = tgt)) = true
         · rw [if_pos hc] at h
           exact ih s1 none s' hstep.1 q1 (fun _ _ _ _ he => by cases he) h
@@ -604,6 +606,16 @@ theorem loop_path_inv (c : SwapCtx) (ps : List (Nat × PositionD)) (p0 : Nat) (o
           intro nai' nti' ntp' tgt' he
           cases he
           exact ⟨hstep.2.1 hc.2, hntp, htgt⟩
+
+/-- the same with a predicate that only needs the `Shape` of an iteration -/
+theorem loop_path_inv (c : SwapCtx) (ps : List (Nat × PositionD)) (p0 : Nat) (ok : CtxOK c) (Q : SwapSt → Prop)
+    (hQ : ∀ s s' nai nti, Path c ps p0 s → Aim c s nai nti → Shape c s s' nti → Path c ps p0 s' → Q s → Q s') :
+    ∀ (fuel : Nat) (s : SwapSt) (inner : Option (Nat × Int × Nat × Nat)) (s' : SwapSt),
+      Path c ps p0 s → Q s →
+      (∀ nai nti ntp tgt, inner = some (nai, nti, ntp, tgt) →
+        Aim c s nai nti ∧ ntp = sp nti ∧ tgt = (if c.aToB then max c.limit (sp nti) else min c.limit (sp nti))) →
+      swapLoop c fuel s inner = .ok s' → Path c ps p0 s' ∧ Q s' :=
+  loop_path_step c ps p0 ok Q (fun s s' nai nti P A sh P' _ q => hQ s s' nai nti P A sh P' q)
 
 /-- the two nested loops keep the invariant -/
 theorem loop_path (c : SwapCtx) (ps : List (Nat × PositionD)) (p0 : Nat) (ok : CtxOK c) :
